@@ -155,6 +155,16 @@ def finallyCleanup : List (Op σ) := [.replace .new .base]
 def saveAliased (w : σ) : List (Op σ) :=
   [.openW .base, .write .base w, .close .base w, .replace .base .base]
 
+/-- Directory at the moment `os.replace(.new, base)` is REFUSED (raises `OSError`/`PermissionError` without
+doing anything): the temporary file is written and closed. The current code lets the error propagate. -/
+def refusedAt (fs : FS σ) (w : σ) : FS σ :=
+  runOps fs [.openW .new, .write .new w, .close .new w]
+
+/-- Variant with a "portability" fallback `except OSError: shutil.copyfile(.new, base); os.remove(.new)`:
+operations issued after the refusal — the copy truncates and rewrites the advertised file in place. -/
+def copyFallback (w : σ) : List (Op σ) :=
+  [.openW .base, .write .base w, .close .base w, .remove .new]
+
 /-- The code before commit 3262c67: write `.new`; `if base.is_file(): rename(base, .bak)`;
 `rename(.new, base)`; `if .bak.is_file(): remove(.bak)`. The two `is_file()` tests are resolved
 from the directory state at entry (`.bak` exists afterwards iff `base` or `.bak` existed). -/
